@@ -203,6 +203,20 @@ def finalState (pol : Policy) : State → List Cmd → State
   | st, _ :: rest => finalState pol st rest
 
 def handle : List String → String
+  | ["dust", value, pkLen, kind, minRelay] =>
+    match value.toInt?, pkLen.toNat?, minRelay.toInt? with
+    | some v, some l, some r =>
+      let w := kind == "w"
+      toString (dustThreshold l w) ++ ":" ++ (if isDust v l w (kind == "u") r then "1" else "0")
+    | _, _, _ => "bad-op"
+  | ["vsize", sigLens, witLens, pkLens] =>
+    match parseIds? sigLens, parseIds? witLens, parseIds? pkLens with
+    | some sl, some wl, some pl =>
+      if sl.length ≠ wl.length then "bad-op" else
+      let ss := strippedSize sl pl
+      let total := ss + witnessSize wl
+      toString ss ++ ":" ++ toString total ++ ":" ++ toString (virtualSize ss total)
+    | _, _, _ => "bad-op"
   | ["conc", _, _, _, _] => "ok"   -- concurrency exploration: the Go side evaluates the invariants itself
   | ["par", pol, ch, defs, ops] =>
     -- concurrent callers over independent groups: the only admissible final state is the sequential one
